@@ -28,7 +28,7 @@ def run(facts, tier):
         ("req merge runs", coin_rules.req_merge_ranges, 2, "REQ compactor merge hands std::inplace_merge exactly the old run and the appended run in both buffer layouts (exact pointer arithmetic with hra_ fixed)"),
         ("unsigned clamp", coin_rules.unsigned_field_minus_param, 1, "the REQ compaction schedule is clamped to the number of sections (unsigned difference cannot wrap)"),
         ("req region", coin_rules.req_region, 2, "REQ compaction range touches the end of the live region that compact() moves, so shrinking num_items_ removes exactly the compacted items"),
-        ("structural triggers", lambda fa: triggers.obligations(fa, ['kll_sketch', 'kll_helper', 'quantiles_sketch', 'req_compactor', 'req_sketch']), 32, "the comparisons that decide when to resize / rebuild / compact / purge / promote keep their reviewed boundary (operator and constants)"),
+        ("structural triggers", lambda fa: triggers.obligations(fa, ['kll_sketch', 'kll_helper', 'quantiles_sketch', 'req_compactor', 'req_sketch']), 39, "the comparisons that decide when to resize / rebuild / compact / purge / promote keep their reviewed boundary (operator and constants)"),
     ):
         o = f(facts)
         obs += o
